@@ -657,6 +657,13 @@ func (s *Session) routingKeyInfo(ctx context.Context, stmt string) (*routingKeyI
 		// proto v4 dont need to calculate primary key columns
 		types := make([]TypeInfo, len(info.request.pkeyColumns))
 		for i, col := range info.request.pkeyColumns {
+			if col < 0 || col >= len(info.request.columns) {
+				// the server names a bind marker it did not describe
+				inflight.err = fmt.Errorf("gocql: partition key index %d is out of range of the %d bind markers of the prepared statement", col, len(info.request.columns))
+				// don't cache this error
+				s.routingKeyInfoCache.Remove(stmt)
+				return nil, inflight.err
+			}
 			types[i] = info.request.columns[col].TypeInfo
 		}
 
@@ -669,6 +676,11 @@ func (s *Session) routingKeyInfo(ctx context.Context, stmt string) (*routingKeyI
 
 		inflight.value = routingKeyInfo
 		return routingKeyInfo, nil
+	}
+
+	if len(info.request.columns) == 0 {
+		// bind markers counted but not described: no routing key, and no error
+		return nil, nil
 	}
 
 	var keyspaceMetadata *KeyspaceMetadata
